@@ -681,7 +681,8 @@ def sweep_unit():
 
 UNITS = {'SrcTime': time_unit, 'SrcBase': base_unit, 'SrcMulti': multi_unit, 'SrcColl': coll_unit, 'SrcPip': pip_unit,
          'SrcMember': member_unit, 'SrcTrack': track_unit, 'SrcRelate': relate_unit, 'SrcCoord': coord_unit,
-         'SrcCurved': curved_unit, 'SrcCalc': calc_unit, 'SrcSweep': sweep_unit}
+         'SrcCurved': curved_unit, 'SrcCalc': calc_unit}
+UNITS['SrcSweep'] = sweep_unit
 
 
 def render(name):
